@@ -222,7 +222,7 @@ def queries(tier):
                     bound='L_INH model: asset 0 (G1) with id from %s and name from %r, asset 1 (O) with id from %s (0 not first, gaps, negative), optional third asset, '
                           '0-2 attackers with several entry points, one L link; formats %s' % (ID0, NAMES, ID1, FMT)))
     ps = [I('fmt', 0, 2), I('dp', 0, 2), I('dg', 0, 1), I('do', 0, 2), B('xa'), B('xl'), B('l0'), B('l1'), B('l2'), B('l3'), I('att', 0, 2)]
-    qs.append(Query(name='attrs', body=body_attrs, params=ps, split=['fmt', 'xl'], timeout=500, pre=['do == 0 or (l2 and not l1)', 'not l3 or (l0 + l1 + l2 <= 1)'],
+    qs.append(Query(name='attrs', body=body_attrs, params=ps, split=['fmt', 'xl', 'dp', 'l0'], timeout=500, pre=['do == 0 or (l2 and not l1)', 'not l3 or (l0 + l1 + l2 <= 1)'],
                     witnesses=[({}, {'fmt': 0, 'dp': 2, 'dg': 1, 'do': 1, 'xa': True, 'xl': True, 'l0': False, 'l1': False, 'l2': True, 'l3': True, 'att': 2}),
                                ({}, {'fmt': 2, 'dp': 1, 'dg': 0, 'do': 0, 'xa': True, 'xl': False, 'l0': True, 'l1': True, 'l2': False, 'l3': False, 'att': 0})],
                     bound='3-asset L_INH model: defense picks dP %s, dG %s (+ dA on the third asset; dP of the O asset, same name as the dP of G1 but default 0, left / set to 1.0 / 0.5), asset extras, association extras, every subset of links '
